@@ -7,7 +7,7 @@
     (Gen/EvalTables.v, translator T2). *)
 From Coq Require Import ZArith.
 From PintV Require Import Model.UC Model.Eval Model.Grammar Model.EvalRun Gen.EvalTables
-  Proofs.EvalSteps Proofs.EvalProofs Proofs.EvalInv Proofs.EvalTies.
+  Proofs.EvalSteps Proofs.EvalProofs Proofs.EvalInv Proofs.EvalTies Proofs.EvalFixed.
 Open Scope string_scope.
 Open Scope list_scope.
 
@@ -94,6 +94,34 @@ Theorem C07_paren_juxt_witnesses :
   ∧ build Eval.op_priority [TNum "2"; TOp "**"; TOp "("; TNum "3"; TOp ")"; TOp "("; TNum "4"; TOp ")"; TEnd]
   = Ok (Eval.Bin "**" (Leaf (TNum "2")) (Eval.Bin "" (Leaf (TNum "3")) (Leaf (TNum "4")))).
 Proof. exact paren_juxt_witnesses. Qed.
+
+(** the repaired "(" branch (model [build_fixed] of Model/EvalRun.v, selected by the harness when
+    the implementation no longer shows F16) groups both witnesses as Python does *)
+Example C07_paren_juxt_fixed_witnesses :
+  (match build_fixed Eval.op_priority [TNum "6"; TOp "/"; TNum "2"; TOp "("; TNum "1"; TOp "+"; TNum "2"; TOp ")"; TEnd]
+   with Ok t => show_tree t | Err _ => "" end) = "((6 / 2) (1 + 2))"
+  ∧ (match build_fixed Eval.op_priority [TNum "2"; TOp "**"; TOp "("; TNum "3"; TOp ")"; TOp "("; TNum "4"; TOp ")"; TEnd]
+     with Ok t => show_tree t | Err _ => "" end) = "((2 ** 3) 4)".
+Proof. vm_compute. split; reflexivity. Qed.
+
+(** for the REPAIRED builder (fix of F16; model [build_fixed], selected by the harness when the
+    implementation no longer shows the defect) the round trip holds without the restriction on
+    juxtaposition before a group: the only juxtapositions excluded are those whose right operand
+    starts with a sign (which read as a binary operator in Python as well) *)
+Theorem C07_parse_render_fixed s e :
+  legal_f e = true →
+  build_fixed Eval.op_priority (render s e ++ [TEnd]) = Ok (tree_of (strip e)).
+Proof. exact (parse_render_fixed s e). Qed.
+Theorem C07_parse_render_fixed_any_parentheses e ending :
+  wfpf e = true → ending = [TEnd] ∨ ending = [TOther; TEnd] →
+  build_fixed Eval.op_priority (render_cst e ++ ending) = Ok (tree_of e).
+Proof. exact (parse_render_cst_fixed e ending). Qed.
+Example C07_f16_inputs_now_in_domain :
+  legal_f (Grammar.Bin OJuxt (Grammar.Bin ODiv (Num "6") (Num "2")) (Grammar.Bin OAdd (Num "1") (Num "2"))) = true
+  ∧ legal (Grammar.Bin OJuxt (Grammar.Bin ODiv (Num "6") (Num "2")) (Grammar.Bin OAdd (Num "1") (Num "2"))) = false
+  ∧ render SMin (Grammar.Bin OJuxt (Grammar.Bin ODiv (Num "6") (Num "2")) (Grammar.Bin OAdd (Num "1") (Num "2")))
+    = [TNum "6"; TOp "/"; TNum "2"; TOp "("; TNum "1"; TOp "+"; TNum "2"; TOp ")"].
+Proof. exact f16_now_legal. Qed.
 
 (** ** Evaluation is Python's arithmetic *)
 Theorem C07_eval_is_python {V} (A : pyops V) (leaf : tok → res V) s e :
